@@ -29,12 +29,12 @@ theorem table_stable (beh : Beh) (st : State) (ops : List Op) (wf : WF st.descs)
 
 /-- SAME INSTANCE EVERYWHERE: whatever happened since Build, resolving a singleton identity by type
 or key from any open scope at any depth yields exactly the instance Build stored for it (and changes
-nothing). Constructor parameters are resolved through the very same function (`buildArgs` calls
+nothing; `hva`: the identity is not that of a result-object field the constructor left nil). Constructor parameters are resolved through the very same function (`buildArgs` calls
 `resolve`), so injected singletons are that instance too. -/
 theorem same_instance (beh : Beh) (st : State) (ops : List Op) (wf : WF st.descs) (i : InitOK st)
     (s ty key : Nat) (d : Desc) (v : Val)
     (hd : findService st.descs ty key = some d) (hl : d.life = .singleton)
-    (hv : lookup st.singletons d.ident = some v)
+    (hv : lookup st.singletons d.ident = some v) (hva : v ≠ .absent)
     (hopen : ((run beh st ops).scope s).disposed = false)
     (hnb : ¬ (key = 0 ∧ ty < 3)) :
     scopeGet beh (run beh st ops) s ty key = (run beh st ops, .ok v) := by
@@ -55,7 +55,7 @@ theorem same_instance (beh : Beh) (st : State) (ops : List Op) (wf : WF st.descs
 
 /-- the same through a group: a singleton member of a group is looked up, never constructed -/
 theorem same_instance_member (beh : Beh) (st : State) (f s : Nat) (d : Desc) (v : Val)
-    (hl : d.life = .singleton) (hv : lookup st.singletons d.ident = some v) :
+    (hl : d.life = .singleton) (hv : lookup st.singletons d.ident = some v) (hva : v ≠ .absent) :
     resolveDesc beh (f + 1) st s d = (st, .ok v) := by
   unfold resolveDesc
   simp only [hl, hv]
@@ -66,8 +66,8 @@ singleton descriptors, and every constructor behaviour: if the run-time phases o
 constructor of every (non-instance) singleton registration has succeeded exactly once — also when it
 yields several services (multiple returns, result object, aliases: all descriptors of a registration
 share the constructor id) — and no constructor of singleton registrations has succeeded twice.
-Hypothesis `NoNilOutputs`: constructors fill every field of their result objects (a nil field is the
-recorded finding D15, see `known_findings.json`). -/
+Hypothesis `NoNilOutputs`: constructors fill every field of their result objects (with a nil field Build
+fails for a singleton registration: the model's `markAbsent`, repaired defect D15). -/
 theorem build_runs_each_singleton_ctor_exactly_once (beh : Beh) (hnil : NoNilOutputs beh) (descs : List Desc) (order : List Nat)
     (wf : WF descs) (rw' : RegWF descs) (st : State) (h : buildRuntime beh descs order = (st, .ok ())) :
     (∀ c, SingCtor descs c → ctorCount st.log c ≤ 1) ∧
